@@ -917,7 +917,7 @@ func (h *rzHarness) apply(toks []string) (obs string) {
 		h.serve(rzReq{method: "POST", sess: toks[1], version: rzVersion(kv["hv"]), body: `{"jsonrpc":"2.0","method":"notifications/initialized"}`, budget: -1})
 		synctest.Wait()
 		return h.observe(toks[1])
-	case "call": // call <sess> ids=3,4 hv=<ver> b=<budget>
+	case "call": // call <sess> ids=3,4 hv=<ver> nn=<notifications in the batch> b=<budget>
 		name := toks[1]
 		h.postCall(name, kv)
 		synctest.Wait()
@@ -1107,6 +1107,16 @@ func (h *rzHarness) postCall(name string, kv map[string]string) {
 		} else {
 			parts = append(parts, fmt.Sprintf(rzCallBody, idn, key))
 		}
+	}
+	// nn=<k>: k notifications grouped with the calls (after the first call, the rest at the end)
+	if nn, _ := strconv.Atoi(kv["nn"]); nn > 0 {
+		const note = `{"jsonrpc":"2.0","method":"notifications/roots/list_changed"}`
+		mixed := []string{parts[0], note}
+		mixed = append(mixed, parts[1:]...)
+		for i := 1; i < nn; i++ {
+			mixed = append(mixed, note)
+		}
+		parts = mixed
 	}
 	body := parts[0]
 	if len(parts) > 1 {
@@ -1626,10 +1636,35 @@ func (g *rzGen) call(s *rzGSess) {
 		}
 	}
 	ids := []int{id}
-	if (hv == "-" || hv == "a") && g.chance(30) {
+	nn := 0
+	legacy := hv == "-" || hv == "a"
+	if legacy && g.chance(30) {
 		id2 := 1 + g.pick(6)
 		if id2 != id {
 			ids = append(ids, id2)
+		}
+	}
+	if legacy && g.prng != nil {
+		// pre-2025-06-18: one POST may carry a batch of several calls and notifications (one logical stream for all of
+		// them; it is done with the LAST response). C02 runs concentrate on them.
+		pct := 12
+		if g.prop == "C02" {
+			pct = 40
+		}
+		if g.prng.Intn(100) < pct {
+			for want := 2 + g.prng.Intn(2); len(ids) < want; {
+				k := 1 + g.prng.Intn(8)
+				fresh := true
+				for _, i := range ids {
+					fresh = fresh && i != k
+				}
+				if fresh {
+					ids = append(ids, k)
+				}
+			}
+			nn = g.prng.Intn(3)
+		} else if g.prng.Intn(100) < 10 {
+			nn = 1 + g.prng.Intn(2) // a batch of one call and notifications
 		}
 	}
 	dup := false
@@ -1645,7 +1680,16 @@ func (g *rzGen) call(s *rzGSess) {
 	} else if len(ids) > 1 {
 		tag = "call-batch"
 	}
-	g.do(fmt.Sprintf("call %s ids=%s hv=%s%s", s.name, strings.Join(idtxt, ","), hv, g.budget()), tag)
+	tags := []string{tag}
+	if len(ids) > 2 {
+		tags = append(tags, "call-batch-3")
+	}
+	nntxt := ""
+	if nn > 0 {
+		nntxt = fmt.Sprintf(" nn=%d", nn)
+		tags = append(tags, "call-batch-with-notifications")
+	}
+	g.do(fmt.Sprintf("call %s ids=%s hv=%s%s%s", s.name, strings.Join(idtxt, ","), hv, nntxt, g.budget()), tags...)
 	if !dup {
 		for _, i := range ids {
 			s.reqs = append(s.reqs, &rzGReq{id: i, x: x})
